@@ -62,8 +62,10 @@ def handler_clauses(command, device_error=-905):
     def documented_code(result): return in_docset(command, result[0])
     @only("C11")
     def timeout_is_device_error(result, self, g, old):
-        return implies(not ci(old) and g.nx > old.g.nx and classify(g) == K_TIMEOUT,
-                       result[0] == device_error and not self._comm_issue)
+        # a time-out ends the request with the device error and does not ask for a reconnection (unless the
+        # request itself re-opened the link afterwards and that failed, as uiHeartbeat may)
+        return implies(not ci(old) and g.nx > old.g.nx and classify(g) == K_TIMEOUT and g.conn == old.g.conn
+                       and g.disc == old.g.disc, result[0] == device_error and not self._comm_issue)
     @only("C11")
     def link_error_is_device_error_and_flagged(result, self, g, old):
         return implies(not ci(old) and g.nx > old.g.nx and classify(g) == K_COMM,
@@ -214,12 +216,17 @@ class Sign(Contract):
     def validated(request): return sign_validated(request) and path_wf(request["keyId"])
     requires = [validated, proto_invariant]
 
-    # ---- C02 second stage: rejected => nothing sent to the device
-    @only("C02")
-    def rejection_sends_nothing(result, request, g, old):
+    # ---- C02 second stage / C14: nothing is exchanged before ensure_connection is reached, and it is reached only
+    # for a request acceptable at the second stage (hash message, or tx message with an authorization)
+    @only("C02", "C14")
+    def nothing_sent_before_connection_check(g, old):
+        return ghost_same_log(g, old.g)
+    at_calls = {"ensure_connection": [nothing_sent_before_connection_check]}
+    @only("C02", "C14")
+    def exchange_only_if_accepted(request, g, old):
         m = request["message"]
-        return implies(not ci(old) and not msg_hash(m) and (not jhas(request, "auth") or result[0] == -101),
-                       ghost_same_log(g, old.g))
+        return implies(not ci(old) and g.nx > old.g.nx,
+                       msg_hash(m) or (jhas(request, "auth") and (msg_legacy(m) or msg_segwit(m))))
     @only("C02")
     def authorized_needs_auth(result, request):
         return implies(not msg_hash(request["message"]) and not jhas(request, "auth"), result[0] == -101)
@@ -246,7 +253,7 @@ class Sign(Contract):
                        implies(sign_named(not msg_hash(m), g.last_op, g.last_sw) == -103, result[0] == -103)
                        and implies(sign_named(not msg_hash(m), g.last_op, g.last_sw) == -102, result[0] == -102)
                        and implies(sign_named(not msg_hash(m), g.last_op, g.last_sw) == -101, result[0] == -101))
-    ensures = handler_clauses("sign") + [rejection_sends_nothing, authorized_needs_auth, unauthorized_message,
+    ensures = handler_clauses("sign") + [exchange_only_if_accepted, authorized_needs_auth, unauthorized_message,
                                          success_iff_device_signed, signature_verbatim, named_causes]
     raises = handler_raises()
 
